@@ -18,6 +18,7 @@ import (
 	"github.com/yaricom/goNEAT/v4/neat"
 	"github.com/yaricom/goNEAT/v4/neat/genetics"
 	neatmath "github.com/yaricom/goNEAT/v4/neat/math"
+	"github.com/yaricom/goNEAT/v4/neat/network"
 )
 
 // C15 on evolved structures (B1 flavour).  Populations are spawned from the XOR start genome and turned over by the real
@@ -243,6 +244,12 @@ func evolveCmd(args []string) int {
 					if oi%5 == 0 {
 						fastRoundTrip(g, nil, nil, res)
 					}
+					if oi%3 == 0 { // the same structure with large node ids and innovation numbers beyond 32 bits
+						big := scaledCopy(g)
+						plainRoundTrip(big, nil, nil, res)
+						yamlRoundTrip(big, nil, nil, !hasNegZero(p), res)
+						orgRoundTrip(big, fit, e, 0, false, nil, nil, res)
+					}
 				}); pn != "" {
 					res.fail("codec/evolved/panic", "round trip of an evolved genome panicked: %s", pn)
 				}
@@ -350,4 +357,40 @@ func bySpeciesRoundTrip(pop *genetics.Population, res *result) {
 			return
 		}
 	}
+}
+
+// scaledCopy rebuilds an evolved genome with node ids * 1000 + 7 and innovation numbers * 1000003 + 2^33 (ids an
+// evolution reaches only after a very long run; int32 node ids and int64 innovation numbers as the library declares).
+func scaledCopy(g *genetics.Genome) *genetics.Genome {
+	traits := make([]*neat.Trait, len(g.Traits))
+	tById := map[int]*neat.Trait{}
+	for i, t := range g.Traits {
+		traits[i] = neat.NewTraitCopy(t)
+		tById[t.Id] = traits[i]
+	}
+	tr := func(t *neat.Trait) *neat.Trait {
+		if t == nil {
+			return nil
+		}
+		return tById[t.Id]
+	}
+	nodes := make([]*network.NNode, len(g.Nodes))
+	nById := map[int]*network.NNode{}
+	for i, n := range g.Nodes {
+		c := network.NewNNodeCopy(n, tr(n.Trait))
+		c.Id = n.Id*1000 + 7
+		nodes[i] = c
+		nById[n.Id] = c
+	}
+	genes := make([]*genetics.Gene, len(g.Genes))
+	for i, e := range g.Genes {
+		var link *network.Link
+		if t := tr(e.Link.Trait); t != nil {
+			link = network.NewLinkWithTrait(t, e.Link.ConnectionWeight, nById[e.Link.InNode.Id], nById[e.Link.OutNode.Id], e.Link.IsRecurrent)
+		} else {
+			link = network.NewLink(e.Link.ConnectionWeight, nById[e.Link.InNode.Id], nById[e.Link.OutNode.Id], e.Link.IsRecurrent)
+		}
+		genes[i] = genetics.NewConnectionGene(link, e.InnovationNum*1000003+(int64(1)<<33), e.MutationNum, e.IsEnabled)
+	}
+	return genetics.NewGenome(g.Id+100000, traits, nodes, genes)
 }
